@@ -97,6 +97,27 @@ Theorem C04_conn_roundtrip :
 Proof. exact conn_roundtrip. Qed.
 Print Assumptions C04_conn_roundtrip.
 
+(* ... and with gz = wrap payload (the gzip_packed encoding, any wrap with a left inverse) the
+   server recovers the caller's payload itself on every branch. *)
+Theorem C04_conn_roundtrip_payload :
+  forall (sha256 : list Z -> list Z) (aes_enc aes_dec : list Z -> list Z -> list Z),
+    aes_inverse aes_enc aes_dec ->
+    forall (wrap : list Z -> list Z) (unwrap : list Z -> option (list Z))
+           (threshold : Z) (k : authkey) (salt session msg_id seq_no : Z) (payload rnd : list Z),
+      (forall p, unwrap (wrap p) = Some p) ->
+      let h := {| h_salt := salt; h_session := session; h_msg_id := msg_id; h_seq_no := seq_no |} in
+      let body := conn_body threshold payload (wrap payload) in
+      length (ak_id k) = 8%nat -> hdr_ok h ->
+      Z.of_nat (length body) mod 4 = 0 -> Z.of_nat (length body) < 2 ^ 31 ->
+      rnd_enough (32 + Z.of_nat (length body)) rnd ->
+      exists ct q,
+        conn_encrypt sha256 aes_enc threshold k salt session msg_id seq_no payload (wrap payload) rnd = Ok ct /\
+        decrypt_msg sha256 aes_dec Server k ct = Ok (h, q) /\
+        (if (threshold <=? 0) || negb (Z.of_nat (length payload) >? threshold)
+         then q = payload else unwrap q = Some payload).
+Proof. exact conn_roundtrip_payload. Qed.
+Print Assumptions C04_conn_roundtrip_payload.
+
 (* Neither direction can panic, whatever the inputs (the IGE block guards always hold). *)
 Theorem C04_encrypt_total :
   forall sha256 aes_enc s k h p rnd, encrypt sha256 aes_enc s k h p rnd <> Panic.
